@@ -131,6 +131,20 @@ pub fn gen_planar(r: &mut Rng, w: usize, h: usize, exact: bool) -> Vec<u8> {
     out
 }
 
+/// planar stream in which every scanline of every plane is `raw` literal bytes followed by
+/// one long-form run (16..=47) — the run-length boundaries of MS-RDPEGDI 2.2.2.5.1.2
+pub fn gen_planar_longrun(r: &mut Rng, raw: usize, run: usize, h: usize) -> Vec<u8> {
+    let mut out = vec![0x10u8];
+    let (n, c) = if run < 32 { (1u8, (run - 16) as u8) } else { (2u8, (run - 32) as u8) };
+    for _plane in 0..4 {
+        for _row in 0..h {
+            if raw > 0 { out.push((raw as u8) << 4); for _ in 0..raw { out.push(r.byte()); } }
+            out.push((c << 4) | n);
+        }
+    }
+    out
+}
+
 pub fn generate(prop: &str, thorough: bool, seed: u64, part: (usize, usize), em: &mut Emitter) {
     let mut r = Rng::new(seed ^ 0xC08 ^ if prop == "C09" { 0x900 } else { 0 });
     let c09 = prop == "C09";
@@ -183,6 +197,14 @@ pub fn generate(prop: &str, thorough: bool, seed: u64, part: (usize, usize), em:
                 emit(em, w, h, bpp, false, &r.bytes(len));
             }
         }
+    }
+    // 4b. planar long-run forms: every run length 16..=47 on the first and on later scanlines,
+    //     alone and after 1..3 literal bytes
+    if part.0 == 0 {
+        for run in 16..=47usize { for raw in 0..=3usize { for h in 1..=3usize {
+            let d = gen_planar_longrun(&mut r, raw, run, h);
+            emit(em, raw + run, h, 32, true, &d);
+        } } }
     }
     // 5. C09: all 5-6-5 channel values through an uncompressed 1x1 bitmap
     if c09 && part.0 == 0 {
